@@ -48,6 +48,18 @@ def check(case, ctx: Ctx):
         ctx.label("parametrized")
 
 
+def profile_eom(tier):
+    """EOM-heavy histories (enable / modify / pulses / disable with drift correction): the
+    record of calls must rebuild the same timeline and phase references."""
+    p = profile(tier)
+    return dict(p, fault_pct=8, min_ops=6, max_ops=24,
+                weights={"declare": 6, "declare_more": 1, "add": 6, "align": 1, "delay": 2,
+                         "phase_shift": 1, "target": 1, "eom": 14, "measure": 0},
+                device=gen.device_specs(n_channels=(1, 2), allow_builtin=False, allow_dmm=False,
+                                        max_seq=[None, None, 6000],
+                                        chan_kw={"kind": "Rydberg", "eom": True, "bandwidth": [8, 40]}))
+
+
 @st.composite
 def var_cases(draw, tier):
     """A generated history with declared variables and calls that use a variable for the
@@ -97,9 +109,12 @@ def check_vars(case, ctx: Ctx):
 
 CLAUSES = [
     Clause("effects", check, gen=lambda t: gen.programs(profile(t)),
-           budget={"quick": (16, 80), "thorough": (16, 3000)},
+           budget={"quick": (16, 80), "thorough": (16, 1200)},
            doc="C09.atomic (raising calls), C09.readonly, C09.rebuild"),
+    Clause("eom_rebuild", check, gen=lambda t: gen.programs(profile_eom(t)),
+           budget={"quick": (8, 60), "thorough": (16, 800)},
+           doc="EOM-heavy histories: atomicity of refused EOM controls and rebuild from the call record"),
     Clause("variables", check_vars, gen=lambda t: var_cases(t),
-           budget={"quick": (8, 60), "thorough": (16, 2000)},
+           budget={"quick": (8, 60), "thorough": (16, 800)},
            doc="refused calls that use a declared variable for the first time"),
 ]
